@@ -356,7 +356,7 @@ def python_state(ctx: Ctx, py: PyProgram) -> None:
     for x in ast.walk(f):
         if isinstance(x, ast.Name) and x.id == "CALL_STACK_EFFECTS":
             n += 1
-    ctx.instance("C07.3/python-state", "mutable module state / call_sub_level uses on the Python execute path", n, 4)
+    ctx.instance("C07.3/python-state", "mutable module state / call_sub_level uses on the Python execute path", n, 3)
     ctx.sample({"mutable_module_globals": sorted(mutable)})
 
 
